@@ -294,6 +294,11 @@ class MerchantEngine:
                     f"Unexpected content in rule", line_num, line
                 )
 
+            # Before the first [Rule] header only assignments are allowed
+            raise MerchantParseError(
+                f"Unexpected content before the first [Rule] header", line_num, line
+            )
+
         # Save final rule
         if current_rule:
             self._add_rule(current_rule, rule_start_line)
